@@ -6,6 +6,7 @@ let run_scenario (sc : scenario) : string =
   | "STORE" -> Store_drv.run sc
   | "SPECREPLAY" -> Store_drv.run_spec sc
   | "MC" -> Mc_drv.run sc
+  | "MCREF" -> Mc_drv.run_ref sc
   | c -> "UNSUPPORTED " ^ c ^ "\n"
 
 let () =
